@@ -18,7 +18,7 @@ Finish == /\ ~done /\ Len(lay.calls) >= 1
           /\ \E w \in (IF Mode = "line" THEN {"fn", "cond"} ELSE Wraps),
                 ex \in (IF Mode = "line" THEN {"none"} ELSE Extras),
                 pr \in (IF Mode = "line" THEN {FALSE} ELSE BOOLEAN),
-                kd \in (IF Mode = "line" THEN {"lambda"} ELSE {"lambda", "def"}) :
+                kd \in (IF Mode = "line" THEN {"lambda"} ELSE {"lambda", "def", "var", "wrapped"}) :
                 lay' = [lay EXCEPT !.wrap = w, !.extra = ex, !.pre = pr, !.kind = kd]
           /\ done' = TRUE
 Next == AddCall \/ Finish
